@@ -1,25 +1,26 @@
 #!/usr/bin/env python3
-"""Evaluate wave-2 seeded changes as their directories become complete (4 metas), two at a time."""
+"""Evaluate wave-N (env SEED_WAVE, default 2) seeded changes as their directories become complete (4 metas), two at a time."""
 import glob, json, os, subprocess, time, sys
+W = os.environ.get("SEED_WAVE", "2")
 done = set(sys.argv[1:])
 extra = {"C05": ["C10"], "C10": ["C05", "C06"], "C06": ["C10"], "C03": ["C02"], "C02": [], "C08": ["C07"], "C07": ["C08"],
          "C12": ["C17"], "C17": ["C12"], "C04": ["C11"], "C11": ["C04"]}
 running = {}
 t0 = time.time()
 while time.time() - t0 < 6 * 3600:
-    for d in sorted(glob.glob("/tmp/mu2-C*-out")):
+    for d in sorted(glob.glob("/tmp/mu%s-C*-out" % W)):
         pid = os.path.basename(d)[4:7]
         if pid in done or pid in running:
             continue
         metas = glob.glob(os.path.join(d, "m*/meta.json"))
-        wt = "/tmp/mu2-%s" % pid
+        wt = "/tmp/mu%s-%s" % (W, pid)
         if len(metas) >= 4 and not os.path.exists(wt) and len(running) < 2:
-            log = open("/tmp/lead/seed2-%s.log" % pid, "w")
+            log = open("/tmp/lead/seed%s-%s.log" % (W, pid), "w")
             running[pid] = subprocess.Popen(["python3", "/verif/notes/seeded_eval.py", pid, d, pid] + extra.get(pid, []),
-                                            stdout=log, stderr=subprocess.STDOUT, env=dict(os.environ, SEED_TAG="w2"), cwd="/verif")
+                                            stdout=log, stderr=subprocess.STDOUT, env=dict(os.environ, SEED_TAG="w" + W), cwd="/verif")
     for pid, p in list(running.items()):
         if p.poll() is not None:
             done.add(pid); del running[pid]
-    if os.path.exists("/tmp/lead/stop_queue"):
+    if os.path.exists("/tmp/lead/stop_queue" + ("" if W == "2" else W)):
         break
     time.sleep(30)
